@@ -429,10 +429,155 @@ fn case_cyclic(seed: u64, case: u64, quick: bool) -> Acc {
     acc
 }
 
+// ---- tree-shaped cyclic recursion: one circuit verifies TWO proofs of itself ---------------------
+
+const TREE_DEGREE_BITS: usize = 14;
+
+struct Tree {
+    data: CircuitData<F, PC, D>,
+    common: CommonCircuitData<F, D>,
+    vdt: VerifierCircuitTarget,
+    conditions: [BoolTarget; 2],
+    inner: [ProofWithPublicInputsTarget<D>; 2],
+}
+
+fn build_tree() -> Result<Tree, String> {
+    catch(|| -> anyhow::Result<Tree> {
+        let config = CircuitConfig::standard_recursion_config();
+        // common data of "a circuit verifying two proofs of the previous shape", iterated to a fixed point
+        let mut data = CircuitBuilder::<F, D>::new(config.clone()).build::<PC>();
+        for _ in 0..3 {
+            let mut builder = CircuitBuilder::<F, D>::new(config.clone());
+            for _ in 0..2 {
+                let proof = builder.add_virtual_proof_with_pis(&data.common);
+                let vd = builder.add_virtual_verifier_data(data.common.config.fri_config.cap_height);
+                builder.verify_proof::<PC>(&proof, &vd, &data.common);
+            }
+            builder.add_gate_to_gate_set(plonky2::gates::gate::GateRef::new(plonky2::gates::constant::ConstantGate::new(config.num_constants)));
+            while builder.num_gates() < 1 << (TREE_DEGREE_BITS - 1) {
+                builder.add_gate(NoopGate, vec![]);
+            }
+            data = builder.build::<PC>();
+        }
+        let mut common = data.common;
+        let mut builder = CircuitBuilder::<F, D>::new(config);
+        let one = builder.one();
+        let count = builder.add_virtual_public_input();
+        let vdt = builder.add_verifier_data_public_inputs();
+        common.num_public_inputs = builder.num_public_inputs();
+        let conditions = [builder.add_virtual_bool_target_safe(), builder.add_virtual_bool_target_safe()];
+        let inner = [builder.add_virtual_proof_with_pis(&common), builder.add_virtual_proof_with_pis(&common)];
+        // count = 1 + cond0 * count0 + cond1 * count1
+        let acc = builder.mul_add(conditions[0].target, inner[0].public_inputs[0], one);
+        let acc = builder.mul_add(conditions[1].target, inner[1].public_inputs[0], acc);
+        builder.connect(count, acc);
+        for i in 0..2 {
+            builder.conditionally_verify_cyclic_proof_or_dummy::<PC>(conditions[i], &inner[i], &common)?;
+        }
+        let data = builder.build::<PC>();
+        Ok(Tree { data, common, vdt, conditions, inner })
+    })
+    .map_err(|p| format!("{} @ {}", p.msg, norm_loc(&p.loc)))?
+    .map_err(|e| e.to_string())
+}
+
+impl Tree {
+    fn prove_node(&self, children: [Option<&ProofWithPublicInputs<F, PC, D>>; 2], own: &VerifierOnlyCircuitData<PC, D>, base: &ProofWithPublicInputs<F, PC, D>) -> Result<ProofWithPublicInputs<F, PC, D>, String> {
+        catch(|| -> anyhow::Result<ProofWithPublicInputs<F, PC, D>> {
+            let mut pw = PartialWitness::<F>::new();
+            for i in 0..2 {
+                pw.set_bool_target(self.conditions[i], children[i].is_some())?;
+                pw.set_proof_with_pis_target::<PC, D>(&self.inner[i], children[i].unwrap_or(base))?;
+            }
+            pw.set_verifier_data_target(&self.vdt, own)?;
+            self.data.prove(pw)
+        })
+        .map_err(|p| format!("panic: {}", p.msg))?
+        .map_err(|e| e.to_string())
+    }
+    fn fully_valid(&self, p: &ProofWithPublicInputs<F, PC, D>) -> bool {
+        matches!(catch(|| check_cyclic_proof_verifier_data(p, &self.data.verifier_only, &self.data.common).is_ok() && self.data.verify(p.clone()).is_ok()), Ok(true))
+    }
+}
+
+/// Every slot of a tree-shaped cyclic circuit must bind the verifier data embedded in the proof it verifies.
+fn case_tree(seed: u64, case: u64) -> Acc {
+    let mut acc = Acc::default();
+    let mut rng = crate::mon::case_rng(seed, 20_004, case);
+    let tree = match build_tree() {
+        Ok(t) => t,
+        Err(e) => {
+            acc.fails.push(("cyclic.tree.circuit_not_buildable".into(), json!({"err": e})));
+            return acc;
+        }
+    };
+    acc.c("cyclic.tree.circuits");
+    acc.keys.push(format!("cyclic.tree|{case}"));
+    if tree.data.common != tree.common {
+        acc.fails.push(("cyclic.tree.circuit_common_data_differs_from_goal".into(), json!({})));
+        return acc;
+    }
+    let real = tree.data.verifier_only.clone();
+    let base = cyclic_base_proof(&tree.common, &real, HashMap::new());
+    acc.evals += 1;
+    let leaf = match tree.prove_node([None, None], &real, &base) {
+        Ok(p) if tree.fully_valid(&p) && p.public_inputs[0] == F(1) => p,
+        other => {
+            acc.fails.push(("cyclic.tree.honest_leaf_not_accepted".into(), json!({"outcome": other.err()})));
+            return acc;
+        }
+    };
+    acc.c("cyclic.tree.links_proved");
+    acc.evals += 1;
+    match tree.prove_node([Some(&leaf), Some(&leaf)], &real, &base) {
+        Ok(p) if tree.fully_valid(&p) && p.public_inputs[0] == F(3) => acc.c("cyclic.tree.links_proved"),
+        other => acc.fails.push(("cyclic.tree.honest_node_not_accepted".into(), json!({"outcome": other.err()}))),
+    }
+    // a proof of the very same circuit that claims other verifier data
+    let mut foreign = real.clone();
+    match rng.gen_range(0..3) {
+        0 => foreign.circuit_digest.elements[rng.gen_range(0..4)] += F::ONE,
+        1 => {
+            let n = foreign.constants_sigmas_cap.0.len();
+            foreign.constants_sigmas_cap.0[rng.gen_range(0..n)].elements[rng.gen_range(0..4)] += F::ONE
+        }
+        _ => {
+            foreign.circuit_digest.elements[0] += F::ONE;
+            foreign.constants_sigmas_cap.0[0].elements[1] += F::ONE;
+        }
+    }
+    let foreign_base = cyclic_base_proof(&tree.common, &foreign, HashMap::new());
+    acc.evals += 1;
+    let foreign_leaf = match tree.prove_node([None, None], &foreign, &foreign_base) {
+        Ok(p) => p,
+        Err(e) => {
+            acc.c(&format!("cyclic.tree.foreign_leaf_not_provable: {}", msg_class(&e).chars().take(40).collect::<String>()));
+            return acc;
+        }
+    };
+    if tree.fully_valid(&foreign_leaf) {
+        acc.fails.push(("cyclic.tree.check_accepts_foreign_verifier_data".into(), json!({})));
+    }
+    for slot in 0..2 {
+        let mut children = [Some(&leaf), Some(&leaf)];
+        children[slot] = Some(&foreign_leaf);
+        acc.evals += 1;
+        acc.c("cyclic.tree.foreign_inner_proof_presented");
+        if let Ok(p) = tree.prove_node(children, &real, &base) {
+            if tree.fully_valid(&p) {
+                acc.fails.push((format!("cyclic.tree.accepted_inner_proof_with_foreign_verifier_data.slot{slot}"), json!({"slot": slot})));
+            }
+        }
+    }
+    acc
+}
+
 fn dispatch(seed: u64, c: u64, quick: bool) -> Acc {
     let n_cyc = if quick { 1 } else { 4 };
     if c < n_cyc {
         case_cyclic(seed, c, quick)
+    } else if c == n_cyc || (!quick && c == n_cyc + 1) {
+        case_tree(seed, c)
     } else if c % 2 == 0 {
         case_conditional(seed, c, quick)
     } else {
@@ -442,7 +587,7 @@ fn dispatch(seed: u64, c: u64, quick: bool) -> Acc {
 
 pub fn run(tier: Tier) -> ! {
     let mut run = Run::new("C20", "exploration", tier);
-    run.rule("Conditional: pairs of sibling inner circuits (same common data, different constants), one outer circuit with conditionally_verify_proof; all 32 combinations of {proof0 valid/invalid} x {proof1 valid/invalid} x condition x {verifier data own/other} per branch; expected = native verdict of the selected (proof, verifier data); circuit verdict = assignment + outer witness generation + satisfaction oracle. Dummy: dummy_circuit / dummy_proof for the common data of generated circuits with random requested public inputs: proof valid for its dummy circuit, public inputs as requested, not accepted by the mimicked circuit. Cyclic: hash-chain circuit as in the library's own test; chains of 2 (quick) / 4 links from random initial values: every link verifies, passes check_cyclic_proof_verifier_data, carries the circuit's verifier data element by element, and its hash / counter equal the reference Poseidon iteration; every single-element alteration of the embedded data and foreign digests / cap entries are rejected by the check; a base link built under foreign verifier data verifies but fails the check and cannot be extended to an accepted link.");
+    run.rule("Conditional: pairs of sibling inner circuits (same common data, different constants), one outer circuit with conditionally_verify_proof; all 32 combinations of {proof0 valid/invalid} x {proof1 valid/invalid} x condition x {verifier data own/other} per branch; expected = native verdict of the selected (proof, verifier data); circuit verdict = assignment + outer witness generation + satisfaction oracle. Dummy: dummy_circuit / dummy_proof for the common data of generated circuits with random requested public inputs: proof valid for its dummy circuit, public inputs as requested, not accepted by the mimicked circuit. Cyclic: hash-chain circuit as in the library's own test; chains of 2 (quick) / 4 links from random initial values: every link verifies, passes check_cyclic_proof_verifier_data, carries the circuit's verifier data element by element, and its hash / counter equal the reference Poseidon iteration; every single-element alteration of the embedded data and foreign digests / cap entries are rejected by the check; a base link built under foreign verifier data verifies but fails the check and cannot be extended to an accepted link. Tree: a circuit that verifies two proofs of itself (2^14 rows): honest leaf and node are accepted; a leaf claiming foreign verifier data cannot be used as inner proof in either slot.");
     run.assume("satisfaction oracle (sat.rs); reference Poseidon sponge (refmodel) for the chain history");
     let quick = run.quick();
     let seed = run.seed;
